@@ -40,9 +40,14 @@ func VerifH_C06_arp() {
 		r := res.got[0].(*ScanResult)
 		verifAssert(r.IP == "192.168.0.2" && r.MAC == "00:0c:29:04:05:06", "valid ARP reply reported with other fields")
 	}
+	first := res.got
 	res.got = nil
 	b := afFrame("B", n)
 	_ = sm.ProcessPacketData(b, nil)
+	if len(first) == 1 {
+		r := first[0].(*ScanResult)
+		verifAssert(r.IP == "192.168.0.2" && r.MAC == "00:0c:29:04:05:06", "an already emitted record changed when a later frame was processed (shared storage)")
+	}
 	verifAssert(len(res.got) <= 1, "more than one record for one frame")
 	if len(res.got) == 0 {
 		verifCover("no-record")
